@@ -14,8 +14,11 @@ import (
 	"github.com/grafana/dskit/ring"
 	"github.com/grafana/dskit/services"
 
+	"github.com/grafana/dskit/kv"
+
 	"verifharness/lcsim"
 	"verifharness/recstore"
+	"verifharness/simnet"
 	"verifharness/vt"
 )
 
@@ -63,7 +66,7 @@ func currentDesc(st *recstore.Store) *ring.Desc {
 	return ring.GetOrCreateRingDesc(v)
 }
 
-func runScript(t *testing.T, run *vt.Run, c vt.CaseID, rng *rand.Rand) {
+func runScript(t *testing.T, run *vt.Run, c vt.CaseID, rng *rand.Rand, gossip bool) {
 	dir, err := os.MkdirTemp(vt.WorkDir(), "c08-")
 	if err != nil {
 		run.Inconclusive(err.Error())
@@ -72,6 +75,25 @@ func runScript(t *testing.T, run *vt.Run, c vt.CaseID, rng *rand.Rand) {
 	defer os.RemoveAll(dir)
 	synctest.Test(t, func(t *testing.T) {
 		st := recstore.New(ring.GetCodec())
+		rlog := &lcsim.RecLog{}
+		var gnet *simnet.Net
+		if gossip {
+			// the gossip store rejects writes that change nothing and merges instead of replacing
+			var err error
+			gnet, err = simnet.New(1, simnet.DefaultConfig(time.Hour))
+			if err != nil {
+				run.Inconclusive(err.Error())
+				return
+			}
+			defer gnet.Stop()
+		}
+		curDesc := func() *ring.Desc {
+			if gossip {
+				v, _ := gnet.Client(0, ring.GetCodec()).Get(context.Background(), lcsim.Key)
+				return ring.GetOrCreateRingDesc(v)
+			}
+			return currentDesc(st)
+		}
 		n := 1 + rng.IntN(5)
 		ids := make([]*identity, n)
 		sharedSeed := int64(rng.Uint64() >> 2)
@@ -102,16 +124,26 @@ func runScript(t *testing.T, run *vt.Run, c vt.CaseID, rng *rand.Rand) {
 			run.Violation(c, sig, what, d)
 		}
 		startInc := func(id *identity) {
-			in, err := lcsim.New(st, id.cfg, len(id.incs)+1)
+			writer := fmt.Sprintf("%s#%d", id.cfg.ID, len(id.incs)+1)
+			var inner kv.Client
+			var handle *recstore.Handle
+			if gossip {
+				inner = gnet.Client(0, ring.GetCodec())
+			} else {
+				handle = st.Client(writer)
+				inner = handle
+				// conflicts force the retry path of the CAS functions (never many in a row)
+				if rng.IntN(2) == 0 {
+					handle.SetFaults(recstore.Faults{Conflict: func(k int) bool { return k%5 == 2 }})
+				}
+			}
+			in, err := lcsim.NewWithClient(id.cfg, len(id.incs)+1, &lcsim.RecProxy{Client: inner, Writer: writer, Log: rlog})
 			if err != nil {
 				run.Inconclusive(err.Error())
 				return
 			}
-			// conflicts force the retry path of the CAS functions (never many in a row)
-			if rng.IntN(2) == 0 {
-				in.Handle.SetFaults(recstore.Faults{Conflict: func(k int) bool { return k%5 == 2 }})
-			}
-			d := currentDesc(st)
+			in.Handle = handle
+			d := curDesc()
 			e, exists := d.Ingesters[id.cfg.ID]
 			fileTokens := false
 			if id.cfg.TokensFile != "" {
@@ -132,7 +164,7 @@ func runScript(t *testing.T, run *vt.Run, c vt.CaseID, rng *rand.Rand) {
 		for step := 0; step < steps; step++ {
 			id := ids[rng.IntN(n)]
 			in := id.cur()
-			before := st.CurrentVersion(lcsim.Key)
+			before := rlog.N()
 			switch r := rng.IntN(16); {
 			case r <= 2:
 				if in == nil || in.Svc().State() == services.Terminated || in.Svc().State() == services.Failed {
@@ -151,7 +183,7 @@ func runScript(t *testing.T, run *vt.Run, c vt.CaseID, rng *rand.Rand) {
 					target := ring.InstanceState(rng.IntN(5))
 					legal := (cur == ring.PENDING && target == ring.JOINING) || (cur == ring.JOINING && target == ring.PENDING)
 					// joining -> active / pending -> active by hand only when the instance already holds tokens
-					d := currentDesc(st)
+					d := curDesc()
 					if (cur == ring.JOINING || cur == ring.PENDING) && target == ring.ACTIVE && len(d.Ingesters[id.cfg.ID].Tokens) == id.cfg.NumTokens {
 						legal = true
 					}
@@ -162,7 +194,7 @@ func runScript(t *testing.T, run *vt.Run, c vt.CaseID, rng *rand.Rand) {
 						if !allowedByTable && err == nil && cur != target {
 							viol("illegal-state-change-accepted", fmt.Sprintf("ChangeState %v -> %v was accepted", cur, target), nil)
 						}
-						marks = append(marks, lcsim.Mark{From: before, To: st.CurrentVersion(lcsim.Key), Kind: "external-state", Writer: in.Writer})
+						marks = append(marks, lcsim.Mark{From: before, To: rlog.N(), Kind: "external-state", Writer: in.Writer})
 					}
 				} else if in.Basic.IsRegistered() {
 					cur := in.Basic.GetState()
@@ -187,16 +219,16 @@ func runScript(t *testing.T, run *vt.Run, c vt.CaseID, rng *rand.Rand) {
 			case r == 6 && in != nil && in.Full != nil && in.Svc().State() == services.Running && in.Full.GetState() == ring.JOINING:
 				// token hand-over from another registered instance
 				other := ids[rng.IntN(n)]
-				d := currentDesc(st)
+				d := curDesc()
 				if other != id && len(d.Ingesters[other.cfg.ID].Tokens) > 0 && d.Ingesters[other.cfg.ID].State == ring.LEAVING && len(d.Ingesters[id.cfg.ID].Tokens) == 0 {
 					victims[other.cfg.ID] = true
 					ctx, cancel := context.WithTimeout(context.Background(), time.Second)
 					err := in.Full.ClaimTokensFor(ctx, other.cfg.ID)
 					cancel()
-					marks = append(marks, lcsim.Mark{From: before, To: st.CurrentVersion(lcsim.Key), Kind: "claim:" + other.cfg.ID, Writer: in.Writer})
+					marks = append(marks, lcsim.Mark{From: before, To: rlog.N(), Kind: "claim:" + other.cfg.ID, Writer: in.Writer})
 					log("%s.ClaimTokensFor(%s): %v", in.Writer, other.cfg.ID, err)
 				}
-			case r <= 9 && in != nil && in.Full != nil && in.Svc().State() == services.Running && in.StopAt.IsZero():
+			case r <= 9 && !gossip && in != nil && in.Full != nil && in.Svc().State() == services.Running && in.StopAt.IsZero():
 				// readiness poll; only the first nil of an incarnation is judged (it latches)
 				getsBefore := len(st.GetsCopy())
 				err := in.Full.CheckReady(context.Background())
@@ -276,7 +308,7 @@ func runScript(t *testing.T, run *vt.Run, c vt.CaseID, rng *rand.Rand) {
 		synctest.Wait()
 		st.Release()
 		synctest.Wait()
-		ck := lcsim.Checker{Store: st, Insts: all, Marks: marks, T0: t0, EndAt: end, ClaimVictims: victims}
+		ck := lcsim.Checker{Store: st, Insts: all, Marks: marks, T0: t0, EndAt: end, ClaimVictims: victims, Records: rlog.Records()}
 		findings, stats := ck.Check()
 		for _, f := range findings {
 			viol(f.Sig, f.What, f.Detail)
@@ -296,7 +328,12 @@ func TestC08(t *testing.T) {
 	run.SetRule("case = one action script on 1-5 real lifecyclers (full Lifecycler: join-after 0/1/10/300 s, observe 0/3/7 s, tokens file or not, unregister on/off, readiness ring check on/off, min-ready 0/15 s; BasicLifecycler with InstanceRegisterDelegate under TokensPersistency/LeaveOnStopping/AutoForget delegates; heartbeat period 5/2 s or disabled) sharing one recording store inside a synctest bubble: start, stop, restart of the same identity, external state changes (hand-over flow and illegal requests), read-only toggles, token claims, readiness polls, time advances, injected CAS conflicts; afterwards a log checker over every written ring version with its writer and virtual commit time checks: only the own entry edited (hand-over and auto-forget excepted), legal state edges within an incarnation and across restarts, heartbeat stamp monotone and written once per period while running, registration time kept, (re)registration stamped now, token lists sorted/unique, a freshly joined instance turns ACTIVE with exactly the configured number of tokens none of which was another instance's token in the version it read; the first nil of CheckReady per incarnation is judged against the ring version served to that very call. non-trivial = more than 3 own writes; distinct by (configuration, action script).")
 	run.ForEachT(t, "scripts", vt.N(500, 15000), func(t *testing.T, c vt.CaseID, rng *rand.Rand, s *vt.Slot) {
 		s.Enter(c, "crash/scripts")
-		runScript(t, run, c, rng)
+		runScript(t, run, c, rng, false)
+		s.Leave()
+	})
+	run.ForEachT(t, "scripts-gossip", vt.N(250, 8000), func(t *testing.T, c vt.CaseID, rng *rand.Rand, s *vt.Slot) {
+		s.Enter(c, "crash/scripts-gossip")
+		runScript(t, run, c, rng, true)
 		s.Leave()
 	})
 	if vt.GenEnabled("scripts") {
@@ -313,7 +350,7 @@ func TestC08Race(t *testing.T) {
 	run.SetRule("the same action scripts under the Go race detector (same log checker).")
 	run.ForEachT(t, "scripts-race", vt.N(60, 1500), func(t *testing.T, c vt.CaseID, rng *rand.Rand, s *vt.Slot) {
 		s.Enter(c, "crash/scripts-race")
-		runScript(t, run, c, rng)
+		runScript(t, run, c, rng, c.Idx%3 == 0)
 		s.Leave()
 	})
 	run.Finish(t)
